@@ -83,7 +83,8 @@ def check_energy(case, r: R):
     ref = dy.Ref(spec)
     A_ref, B_ref = ref.float_matrices()
     ev = np.linalg.eigvals(A_ref)
-    if np.linalg.cond(A_ref) > 1e10 or ev.real.max() >= 0:
+    if np.linalg.cond(A_ref) > 1e10 or ev.real.max() >= -1e-9 * np.abs(ev).max():
+        # lossless (or numerically lossless) modes: no finite settling time to scale the time grid with
         return r.reject('ill-conditioned or marginal')
     tau_max = 1 / np.abs(ev.real).min()
     tau_min = 1 / np.abs(ev).max()
